@@ -544,6 +544,21 @@ class PCtx:
         if n.is_const():
             self._note_const(n.const_value())
             raise Infeasible(f"non-zero constant assumed zero: {why}")
+        # fast path (no factoring): linear in a variable with coefficient +-1  =>  solve for it.
+        # (a polynomial v*(+-1) + rest is irreducible in v, so nothing is lost by not factoring)
+        if n.nterms() > 12:
+            best = None
+            for v in n.vars():
+                if n.degree(v) == 1:
+                    c0, c1 = n.coeffs(v)
+                    if c1.is_const() and abs(c1.const_value()) == 1:
+                        key = self._prio(v)
+                        if best is None or key > best[0]:
+                            best = (key, v, c0, c1)
+            if best is not None:
+                _, v, c0, c1 = best
+                self._install_subst(v, -c0, c1)
+                return
         nu = self.nonunit_factors(n)
         if not nu:
             raise Infeasible(f"unit assumed zero: {why}")
